@@ -414,6 +414,7 @@ def fixup_ast_from_modifications(transformed_ast: ast.AST, original_ast: ast.Cal
             for a in node.args[n_old_args:]:
                 orig_ast.args.append(a)
             orig_ast.func = node.func
+            orig_ast.keywords = node.keywords
 
     fixer = arg_fixer(original_ast)
     fixer.visit(transformed_ast)
